@@ -73,10 +73,11 @@ where
             let change = old_val - self.old_ref;
             self.old_ref = old_val;
             self.q_vals.pop_front();
+            // Sums of gains / losses cannot be negative; rounding of the subtraction can make them so.
             if change > T::zero() {
-                self.avg_gain = self.avg_gain - change / window_len;
+                self.avg_gain = (self.avg_gain - change / window_len).max(T::zero());
             } else {
-                self.avg_loss = self.avg_loss - change.abs() / window_len;
+                self.avg_loss = (self.avg_loss - change.abs() / window_len).max(T::zero());
             }
         }
         self.q_vals.push_back(val);
